@@ -251,7 +251,7 @@ def eval_pointset(P, d, spec, cov, found):
                            {"fn": "nondominated_sort", "dim": dim, "max_items": mi, "flatten": "both",
                             "answers": list(ans)})
 
-    if n == 0:
+    if n == 0 or spec.get("no_priorities"):
         return
     # -- priority objects (documented: vector of shape (num_samples,), lower = picked first)
     for dim in dims:
@@ -307,7 +307,8 @@ SPECS = {
     # large-n slice of the quick tier: max_items in {None, 1, n-1, n+1}
     "slim": dict(max_items=lambda m, n: m in (1, n - 1, n + 1), weights=_weights),
     # the largest slice of the thorough tier: max_items in {None, 1..n} (without n+1)
-    "spec": dict(max_items=lambda m, n: m <= n, weights=_weights),
+    # and the sort/filter functions only (the priority classes are enumerated on all the other slices)
+    "spec": dict(max_items=lambda m, n: m <= n, weights=_weights, no_priorities=True),
     "pareto": dict(pareto_only=True),
 }
 
